@@ -373,6 +373,113 @@ def StrtodExact (strtod : List Nat → Dbl) : Prop :=
     m < 9007199254740992 → -1074 ≤ e → e ≤ 971 →
     Dbl.eqv (strtod ((if neg then [45] else []) ++ (ip ++ (46 :: fp)))) (.fin neg m e)
 
+/-! ### an executable, correctly rounding `strtod` for the decimal / `inf` / `nan` forms (`strtodM`)
+
+  Used by the driver on every `pd`/`fd` line (compared with the real `atof`) and - being a definition - it discharges
+  `StrtodExact` (`strtodM_exact` in PropsNum.lean).  The hexadecimal form (`0x1p3`) is answered `none`: nstd never
+  produces it (`%f` prints decimal digits) and the generators do not feed it. -/
+
+/-- `num / den` scaled by `2^-e`: numerator and denominator -/
+def qNum (num : Nat) (e : Int) : Nat := if 0 ≤ e then num else num * 2 ^ (-e).toNat
+def qDen (den : Nat) (e : Int) : Nat := if 0 ≤ e then den * 2 ^ e.toNat else den
+/-- `floor (num / den / 2^e)` -/
+def qOf (num den : Nat) (e : Int) : Nat := qNum num e / qDen den e
+
+/-- `e` is the exponent of the binary64 grid at `num/den`: the integer part of the scaled value has at most 53 bits, and
+    either `e` is the smallest exponent (subnormal grid) or one binade lower it would have more -/
+def expOk (num den : Nat) (e : Int) : Bool :=
+  decide (-1074 ≤ e) && decide (qOf num den e < 9007199254740992) &&
+    (decide (e = -1074) || decide (9007199254740992 ≤ qOf num den (e - 1)))
+
+/-- linear search upwards for the first exponent whose scaled value has at most 53 bits (fallback, never taken in practice) -/
+def findExp (num den : Nat) : Nat → Int → Int
+  | 0, e => e
+  | f + 1, e => if qOf num den e < 9007199254740992 then e else findExp num den f (e + 1)
+
+/-- the estimate from the bit lengths; it is CHECKED by `expOk` before it is used -/
+def expHint (num den : Nat) : Int :=
+  let e0 : Int := (Nat.log2 num : Int) - (Nat.log2 den : Int) - 53
+  let e1 : Int := if qOf num den e0 < 9007199254740992 then e0 else e0 + 1
+  if e1 < -1074 then -1074 else e1
+
+def pickExp (num den : Nat) : Int :=
+  if expOk num den (expHint num den) then expHint num den else findExp num den 2048 (-1074)
+
+/-- nearest binary64 value (ties to even) of `num / den`, `num, den > 0` -/
+def roundToDbl (neg : Bool) (num den : Nat) : Dbl :=
+  let e := pickExp num den
+  if 971 < e then .inf neg
+  else
+    let m := roundHalfEven (qNum num e) (qDen den e)
+    if m = 9007199254740992 then (if 971 < e + 1 then .inf neg else .fin neg 4503599627370496 (e + 1))
+    else .fin neg m e
+
+def lowerAscii (c : Nat) : Nat := if 65 ≤ c ∧ c ≤ 90 then c + 32 else c
+
+/-- case-insensitive prefix test against a lower-case word -/
+def startsCI : List Nat → List Nat → Bool
+  | _, [] => true
+  | [], _ :: _ => false
+  | c :: cs, w :: ws => lowerAscii c == w && startsCI cs ws
+
+def isHexDigitC (c : Nat) : Bool := isDigit c || (97 ≤ lowerAscii c && lowerAscii c ≤ 102)
+
+/-- `0x` / `0X` followed by a hexadecimal digit or `.`: the hexadecimal floating form -/
+def isHexPrefix : List Nat → Bool
+  | z :: c :: c2 :: _ => z == 48 && lowerAscii c == 120 && (isHexDigitC c2 || c2 == 46)
+  | _ => false
+
+def takeDigits : List Nat → List Nat × List Nat
+  | [] => ([], [])
+  | c :: cs => if isDigit c then ((takeDigits cs).1.cons c, (takeDigits cs).2) else ([], c :: cs)
+
+def decVal (ds : List Nat) : Nat := ds.foldl (fun a d => a * 10 + (d - 48)) 0
+
+/-- the exponent part `e[+-]digits` (only when at least one digit follows) -/
+def expPart (r : List Nat) : Int :=
+  match r with
+  | c :: t =>
+    if c == 101 || c == 69 then
+      let st : Bool × List Nat := match t with
+        | sc :: u => if sc = 45 then (true, u) else if sc = 43 then (false, u) else (false, t)
+        | [] => (false, [])
+      let eds := (takeDigits st.2).1
+      if eds.isEmpty then 0 else (if st.1 then -((decVal eds : Nat) : Int) else ((decVal eds : Nat) : Int))
+    else 0
+  | [] => 0
+
+/-- the decimal form behind the sign: digits, optional `.digits`, optional exponent -/
+def strtodDecimal (neg : Bool) (r : List Nat) : Dbl :=
+  let ip := (takeDigits r).1
+  let r1 := (takeDigits r).2
+  let fr : List Nat × List Nat := match r1 with
+    | c :: t => if c = 46 then takeDigits t else ([], r1)
+    | [] => ([], [])
+  let fp := fr.1
+  if ip.isEmpty ∧ fp.isEmpty then .fin false 0 0          -- no conversion: +0.0
+  else
+    let d := decVal (ip ++ fp)
+    let p : Int := expPart fr.2 - (fp.length : Int)
+    if d = 0 then .fin neg 0 0
+    else if 400 < p then .inf neg
+    else if p + ((ip ++ fp).length : Int) < -400 then .fin neg 0 0
+    else if 0 ≤ p then roundToDbl neg (d * 10 ^ p.toNat) 1
+    else roundToDbl neg d (10 ^ (-p).toNat)
+
+/-- `strtod(s, NULL)`; `none` = hexadecimal form (not modelled) -/
+def strtodM (s : List Nat) : Option Dbl :=
+  let r0 := skipSpace s
+  let sg : Bool × List Nat := match r0 with
+    | c :: t => if c = 45 then (true, t) else if c = 43 then (false, t) else (false, r0)
+    | [] => (false, [])
+  if isHexPrefix sg.2 then none
+  else if startsCI sg.2 [105, 110, 102] then some (.inf sg.1)
+  else if startsCI sg.2 [110, 97, 110] then some (.nan sg.1)
+  else some (strtodDecimal sg.1 sg.2)
+
+/-- total version used where a `List Nat → Dbl` is wanted -/
+def strtodT (s : List Nat) : Dbl := (strtodM s).getD (.nan false)
+
 /-- an IDEAL `strtod` on the texts `[-]digits.digits` (no rounding: the value `num / 10^k` written as
     `(num / 5^k) * 2^-k`, which is the value itself whenever it is dyadic): witness that `StrtodExact` is satisfiable -/
 def strtodIdeal (text : List Nat) : Dbl :=
